@@ -111,7 +111,7 @@ impl Naming {
             Naming::NumbersDirect
                 | Naming::TimestampsDirect
                 | Naming::TimestampsCustomFormat {
-                    current_infix: None | Some(""),
+                    current_infix: None,
                     format: _
                 }
         )
